@@ -27,7 +27,8 @@ func init() {
 	core.Register(&core.Check{
 		ID:    "C17",
 		Level: "model_checking",
-		Rule: "all decimal int spellings <=4 chars over {0,1,7,9,_} + spellings around 2^63/2^64/10^19; 0x/0o/0b spellings <=3 digits + widest values; exponent ints M e K (K in [-3,20]) and with extreme exponents (21 .. beyond int64; zero mantissas, non-representable products, exact quotients of mantissas with up to 3002 digits); floats D.D (<=3+3 digits) and exponent floats incl. extreme magnitudes; " +
+		Rule: "re-entrant interpolation: strs whose embedded expression evaluates the same literal again (recursive function, method, mutual recursion, chain block) to depth 5; " +
+			"all decimal int spellings <=4 chars over {0,1,7,9,_} + spellings around 2^63/2^64/10^19; 0x/0o/0b spellings <=3 digits + widest values; exponent ints M e K (K in [-3,20]) and with extreme exponents (21 .. beyond int64; zero mantissas, non-representable products, exact quotients of mantissas with up to 3002 digits); floats D.D (<=3+3 digits) and exponent floats incl. extreme magnitudes; " +
 			"every escape \\c for c in 0x20..0x7e, \\x/\\u/octal samples, embedded quotes, trailing backslash, char and raw strings; every identifier <=4 (thorough 5) chars over {a,Z,7,_,?,!} matching the documented pattern, every keyword-prefixed/suffixed name and long names of every length 2^k-1, 2^k, 2^k+1 up to 1025 (thorough 4097) in 4 spellings, each as variable, property, symbol, called function, symbol function (sym?) and listed key; all 475254 lower-case names of <=4 letters, 262144 six-letter and 531441 twelve-letter names over small alphabets and 126 long names sharing prefixes of 31..4097 bytes have pairwise different symbol keys; 11 script files run by the real command-line binary (raw strings spanning LF / CRLF / CR line breaks keep every byte), and variables/properties named by such pairs stay apart, " +
 			"each used as variable, property, symbol and call; oracle = math/big, strconv.ParseFloat, escape table; non-representable literals must be rejected; non-trivial = every case; distinct = distinct spelling x use; round 7: A reserved word directly followed by ? or ! (if?, else! ...) is generated as a name as well (5 known-finding keys).; round 8: Hex literals use every digit class (0189abefABEF); exponent ints have 16-19 digit mantissas; literals spanning lines are entered in the REPL's multi-line mode.",
 		Assumptions: []string{
@@ -300,6 +301,49 @@ func gen(thorough bool, emit func(tcase)) {
 			keys = "[]"
 		}
 		emit(tcase{Class: class + "/property-listed", Src: "o := {" + name + ": 5}\n[o.keys, o.keys(private?: true)]", Kind: "repr", Strs: []string{"[" + keys + `, ["` + name + `"]]`}, Risky: risky})
+	}
+	// interpolated strs whose embedded expression evaluates the SAME literal again before the outer evaluation is
+	// complete (recursive functions and methods, mutual recursion, recursion inside a chain block)
+	for d := 1; d <= 5; d++ {
+		var nest, tsen, show, ab func(n int) string
+		nest = func(n int) string {
+			if n == 0 {
+				return "-"
+			}
+			return fmt.Sprintf("[%d:%s]", n, nest(n-1))
+		}
+		tsen = func(n int) string {
+			if n == 0 {
+				return "-"
+			}
+			return fmt.Sprintf("%s<%d>%s", tsen(n-1), n, tsen(n-1))
+		}
+		show = func(n int) string {
+			if n == 0 {
+				return "."
+			}
+			return fmt.Sprintf("(%d %s)", n, show(n-1))
+		}
+		ab = func(n int) string {
+			if n == 0 {
+				return ""
+			}
+			return fmt.Sprintf("%c%d%s|", "ab"[(d-n)%2], n, ab(n-1))
+		}
+		var tree func(n int) string
+		tree = func(n int) string {
+			if n == 0 {
+				return "x"
+			}
+			return "<" + tree(n-1) + "," + tree(n-1) + ">"
+		}
+		emit(tcase{Class: "embedded/reentrant/function", Src: fmt.Sprintf("nest := {|n| \"[#{n}:#{nest(n - 1)}]\" if n > 0 else \"-\"}\nnest(%d)", d), Kind: "str", Strs: []string{nest(d)}})
+		emit(tcase{Class: "embedded/reentrant/function-twice", Src: fmt.Sprintf("tsen := {|n| \"#{tsen(n - 1)}<#{n}>#{tsen(n - 1)}\" if n > 0 else \"-\"}\ntsen(%d)", d), Kind: "str", Strs: []string{tsen(d)}})
+		emit(tcase{Class: "embedded/reentrant/method", Src: fmt.Sprintf("mk := {|d| {d: d, show: m{\"(#{.d} #{mk(.d - 1).show})\" if .d > 0 else \".\"}}}\nmk(%d).show", d), Kind: "str", Strs: []string{show(d)}})
+		emit(tcase{Class: "embedded/reentrant/mutual", Src: fmt.Sprintf("a := {|n| \"a#{n}#{b(n - 1)}|\" if n > 0 else \"\"}\nb := {|n| \"b#{n}#{a(n - 1)}|\" if n > 0 else \"\"}\na(%d)", d), Kind: "str", Strs: []string{ab(d)}})
+		if d <= 3 {
+			emit(tcase{Class: "embedded/reentrant/chain-block", Src: fmt.Sprintf("sep := \",\"\ng := {|n| [1, 2]@{|i| f(n - 1)}.join(sep)}\nf := {|n| \"<#{g(n)}>\" if n > 0 else \"x\"}\nf(%d)", d), Kind: "str", Strs: []string{tree(d)}})
+		}
 	}
 	words("aZ7_?!", idLen, emitName)
 	// long names: every length around powers of two up to 1025 (thorough 4097), in 4 spellings
